@@ -20,7 +20,7 @@ REGISTRY = {
     'C17': dict(module='c17', level='other', technique='dispatch-shape rule over resolved MIR; per-lane term equality / key-lane dependence by global value numbering',
                 quick=['x64-all', 'x64-soft-all', 'x64-soft-aesni-all'], thorough=['x64-all', 'x64-soft-all', 'x64-soft-aesni-all', 'x64-aesni-all', 'x64-alt1-all', 'a64-all', 'a64-soft-all', 'x86-all', 'x86-alt1-all']),
     'C04': dict(module='c04', level='other', technique='override-discipline and InOut dataflow rules; per-lane term equality (global value numbering) of parallel and single-block routines',
-                quick=['x64', 'x64-alt1'], thorough=['x64', 'x64-soft', 'x64-alt1', 'x64-alt2', 'a64', 'a64-soft-all', 'x86', 'x86-alt1-all']),
+                quick=['x64', 'x64-soft', 'x64-alt1'], thorough=['x64', 'x64-soft', 'x64-alt1', 'x64-alt2', 'a64', 'a64-soft-all', 'x86', 'x86-soft-all', 'x86-alt1-all']),
     'C03': dict(module='c03', level='other', technique='normalised-MIR equality across feature sets; global value numbering across the serpent_no_unroll configurations',
                 quick=['x64', 'x64-all', 'x64-alt1', 'x64-alt1-all'], thorough=['x64', 'x64-all', 'x64-alt1', 'x64-alt1-all', 'x64-soft', 'x64-soft-all', 'x64-alt2', 'x64-alt2-all', 'a64', 'a64-all', 'x86', 'x86-all']),
     'C14': dict(module='c14', level='other', technique='delegation-shape and who-may-call rules over resolved monomorphic MIR; global value numbering of the expansion routines against the reference ExpandKey with the state permutation uninterpreted',
@@ -29,8 +29,8 @@ REGISTRY = {
                 quick=['x64', 'x64-soft-all'], thorough=['x64', 'x64-soft-all', 'x64-alt1', 'a64', 'a64-soft-all', 'x86']),
     'C05': dict(module='c05', level='other', technique='global value numbering of constructors and block functions with DES helpers as uninterpreted functions, compared with the SP 800-67 composition terms',
                 quick=['x64'], thorough=['x64', 'a64', 'x86']),
-    'C01': dict(module='c01', level='other', technique='global value numbering (Herbrand terms + cancellation rewrites) over abstractly interpreted MIR: dec(enc(x)) == x as a term identity',
-                quick=['x64'], thorough=['x64', 'x64-alt1', 'a64', 'x86']),
+    'C01': dict(module='c01', level='other', technique='global value numbering (Herbrand terms + cancellation rewrites; GF(2)-affine bit-level normal form and truth-table lemmas for bitsliced S-boxes) over abstractly interpreted MIR: dec(enc(x)) == x as a term identity',
+                quick=['x64', 'x64-soft', 'x64-alt1'], thorough=['x64', 'x64-soft', 'x64-alt1', 'a64', 'x86', 'x86-soft-all']),
     'C18': dict(module='c18', level='other', technique='abstract interpretation of belt_wblock_enc/dec: every short length (store-free rejection), all lengths >= 32 at once with a relational (linear-term + interval) length; global value numbering against the reference round',
                 quick=['x64', 'x64-all'], thorough=['x64', 'x64-all', 'a64', 'x86']),
     'C20': dict(module='c20', level='proof', technique='abstract interpretation of monomorphic MIR (intervals x known-bits, constant propagation with unrolling) discharging every panic edge',
